@@ -273,9 +273,14 @@ impl<T: Clone + Into<Vec<u8>>> FindNodeContext<T> {
                     elapsed = ?instant.elapsed(),
                     "peer no longer counting towards parallelism factor"
                 );
-                self.pending_responses = self.pending_responses.saturating_sub(1);
             }
         }
+        // Only the requests younger than the peer timeout count towards the parallelism factor.
+        self.pending_responses = self
+            .pending
+            .values()
+            .filter(|(_, instant)| instant.elapsed() <= self.peer_timeout)
+            .count();
 
         // At this point, we either have pending responses or candidates to query; and we need more
         // results. Ensure we do not exceed the parallelism factor.
